@@ -257,7 +257,19 @@ fn kernels_on(rng: &mut Rng, t: &mut Shards, dt: &DataType, max_len: usize) {
         // carries the buffers / children of its neighbours
         let mut operand = |rng: &mut Rng, scalar: bool| -> ArrayRef {
             let np = *rng.pick(&[0usize, 30]);
-            if scalar && rng.chance(60) {
+            if scalar && fam == "view" && rng.chance(40) {
+                // several long (> 12 byte) values, each in its own data buffer: a one-row slice
+                // past the first row references a data buffer other than the first
+                let m = 3 + rng.below(4);
+                let vals: Vec<String> = (0..m).map(|i| format!("long-value-{i}-{}", "x".repeat(rng.below(20)))).collect();
+                let big: ArrayRef = if matches!(dt, DataType::Utf8View) {
+                    Arc::new(StringViewArray::from_iter_values(vals))
+                } else {
+                    Arc::new(BinaryViewArray::from_iter_values(vals.iter().map(|v| v.as_bytes())))
+                };
+                let big = mutate::view_repartition(&big).unwrap_or(big);
+                big.slice(1 + rng.below(m - 1), 1)
+            } else if scalar && rng.chance(60) {
                 let m = 2 + rng.below(5);
                 let big = mk::array(rng, dt, m, Cfg::wild(np));
                 // view arrays: spread the long values over several data buffers first, so that a
